@@ -47,7 +47,8 @@ _LOOP = {
     "C09": (["Redress.Props.C09"], ["Redress/Audit/C09.lean"]),
     "C11": (["Redress.Props.C11", "Redress.Props.C11NR", "Redress.Props.C11H"],
             ["Redress/Audit/C11.lean", "Redress/Audit/C11NR.lean", "Redress/Audit/C11H.lean"]),
-    "C12": (["Redress.Props.C12"], ["Redress/Audit/C12.lean"]),
+    "C12": (["Redress.Props.C12", "Redress.Props.C12Fwd", "Redress.Generated.Forwarding"],
+            ["Redress/Audit/C12.lean", "Redress/Audit/C12Fwd.lean"]),
     "C13": (["Redress.Props.C13"], ["Redress/Audit/C13.lean"]),
     "C14": (["Redress.Props.C14"], ["Redress/Audit/C14.lean"]),
     "C15": (["Redress.Props.C15"], ["Redress/Audit/C15.lean"]),
@@ -68,11 +69,27 @@ _LOOP_PARTIAL = {
     "C02": "wall-clock independence is by construction of the model (it has no wall-clock input); carried by the "
            "correspondence, whose non-monotonic clock shim jumps by hours at every read",
 }
+def _regen_forwarding() -> None:
+    """C12's translator for the glue: regenerate Redress/Generated/Forwarding.lean from the CURRENT working tree
+    before the proof obligations are built (a refusal writes a file that does not build)."""
+    from . import extract_forwarding
+    from .common import REPO, LEAN_DIR
+    out = LEAN_DIR / "Redress" / "Generated" / "Forwarding.lean"
+    try:
+        extract_forwarding.write_generated(REPO, out)
+    except (extract_forwarding.ExtractError, SyntaxError, OSError) as e:
+        msg = str(e).replace('"', "'")
+        out.write_text("import Redress.Props.C12Fwd\n/- extract_forwarding.py could not translate the working tree: "
+                       + msg + " -/\nnamespace Redress.Generated.Forwarding\n"
+                       "theorem extracted_ok : (0 : Nat) = 1 := by decide\nend Redress.Generated.Forwarding\n")
+
+
 for pid, (mods, audits) in _LOOP.items():
     if _have(*audits):
         fams = (["loop", "interleave"] if pid in ("C08", "C09", "C12") else ["loop", "sigs"] if pid == "C05"
                 else ["loop"])
-        _reg(pid, mods, audits, fams, LOOP_NOTE, partial=_LOOP_PARTIAL.get(pid, ""))
+        _reg(pid, mods, audits, fams, LOOP_NOTE, partial=_LOOP_PARTIAL.get(pid, ""),
+             pre_build=_regen_forwarding if pid == "C12" else None)
 
 # ---------------------------------------------------------------- components
 if _have("Redress/Audit/C06.lean"):
